@@ -33,7 +33,8 @@ Owner == <<<<111>>, La>>
 \* envelope values at their boundaries, spread over the record types: TTLs with the top bit set, the maximum,
 \* zero; the cache-flush bit in the class field (not for OPT, whose class and TTL fields mean something else)
 TtlOf == CASE t % 4 = 0 -> <<0, 0, 0, 60>> [] t % 4 = 1 -> <<128, 0, 0, 0>> [] t % 4 = 2 -> <<255, 255, 255, 255>> [] OTHER -> <<127, 255, 255, 255>>
-ClassOf == IF t = 41 THEN 1 ELSE IF t % 3 = 0 THEN 32769 ELSE IF t % 3 = 1 THEN 1 ELSE 3
+\* IN and CH with and without the cache-flush bit, NONE with it (the bit is independent of the class)
+ClassOf == IF t = 41 THEN 1 ELSE <<32769, 1, 3, 32771, 33022>>[(t % 5) + 1]
 RRHead(len) == EncodeNamePlain(Owner) \o BE16(t) \o BE16(ClassOf) \o (IF t = 41 THEN <<0, 0, 0, 0>> ELSE TtlOf) \o BE16(len)
 
 First ==
